@@ -9,7 +9,7 @@ import nauyaca.protocol.request  # noqa: F401
 import nauyaca.server.middleware as mw
 from nauyaca.server.middleware import RateLimitConfig, RateLimiter, TokenBucket
 
-from vf import Ob, V, bind, internal, pick, release
+from vf import HarnessError, Ob, V, bind, internal, pick, release
 from vf.py2smt import Eviction, Unsupported, has_await, merge, run_function, Interp
 from vf.smt import decide, frac
 from vf.stubs import drive as _drive
@@ -448,6 +448,70 @@ def isolation(a: int, b: int, ta: int, tb: int, ri: int, fresh_b: bool) -> bool:
     return V(r1 == r2)
 
 
+HLEN = pick(6, 7)
+try:                                   # resolved once at import time (source inspection never runs under the engine)
+    _LOOP_NAME = _loop_name()
+except Exception:  # noqa: BLE001
+    _LOOP_NAME = None
+
+
+def history(e1: int, e2: int, e3: int, e4: int, e5: int, e6: int, e7: int, cap: int) -> bool:
+    """
+    pre: 0 <= e1 <= 2 and 0 <= e2 <= 2 and 0 <= e3 <= 2 and 0 <= e4 <= 2 and 0 <= e5 <= 2 and 0 <= e6 <= 2 and 0 <= e7 <= 2
+    pre: 1 <= cap <= 2
+    pre: HLEN >= 7 or (e7 == 0 and cap == 1)
+    post: _
+    """
+    # ONE long-lived limiter, a history of events: request from address A | request from address B | ten idle minutes
+    # followed by one pass of the real clean-up loop.  Every decision is compared with an independent per-address token
+    # bucket (so whatever the limiter caches between calls, and whatever the clean-up drops, no address gains allowance
+    # and no address is affected by the other)
+    clk = _Clock(100.0)
+    bind(mw, _time, clk)
+
+    class _FA:
+        calls = 0
+
+        async def sleep(self, d):
+            _FA.calls += 1
+            if _FA.calls % 2 == 0:
+                raise _asyncio.CancelledError()
+
+    bind(mw, _asyncio, _FA())
+    try:
+        rate = 0.002
+        rl = RateLimiter(RateLimitConfig(capacity=cap, refill_rate=rate))
+        loop_name = _LOOP_NAME
+        if loop_name is None:
+            raise HarnessError("clean-up coroutine not found")
+        model = {}                                     # address -> (tokens, last)
+        for e in (e1, e2, e3, e4, e5, e6, e7)[:HLEN]:
+            if e == 2:
+                clk.now += 700.0
+                _FA.calls = 0
+                co = getattr(rl, loop_name)()
+                try:
+                    co.send(None)
+                except (StopIteration, _asyncio.CancelledError):
+                    pass
+                continue
+            clk.now += 0.25
+            ip = IPS[e]
+            tok, last = model.get(ip, (float(cap), clk.now))
+            tok = min(float(cap), tok + (clk.now - last) * rate)
+            want = tok >= 1.0
+            if 1.0 - 1e-6 < tok < 1.0:
+                raise HarnessError("knife-edge token count in the reference model")
+            model[ip] = (tok - 1.0 if want else tok, clk.now)
+            ok, resp = drive(rl.process_request("gemini://h/", ip))
+            if ok != want:
+                return V(False)
+        return V(True)
+    finally:
+        release(mw, _time)
+        release(mw, _asyncio)
+
+
 META = {
     "files": ["src/nauyaca/server/middleware.py"],
     "level": "model_checking",
@@ -486,6 +550,11 @@ OBLIGATIONS = [
        symbolic="(validation of the translator, not a claim about nauyaca)", functions=["TokenBucket.consume"], twin=False),
     Ob("no_await", no_await, kind="diff", quick=30, thorough=30,
        symbolic="(structural)", functions=["RateLimiter.process_request", "TokenBucket.consume"], twin=False),
+    Ob("history", history, quick=400, thorough=1200,
+       symbolic="histories of 6 (quick) / 7 events on one limiter: request from A | request from B | 700 idle seconds + one pass of the "
+                "real clean-up loop; capacity 1 (quick) / 1..2; every decision compared with an independent per-address bucket",
+       functions=["RateLimiter.process_request", "TokenBucket.consume", "clean-up coroutine (discovered)"],
+       stubs=["clock", "asyncio.sleep"], note="floats concrete; the engine forks on the event kinds"),
     Ob("isolation", isolation, quick=240, thorough=900,
        symbolic="two distinct addresses (index into 3), token state of each bucket (index into 4 values), b present or not, retry hint",
        functions=["RateLimiter.process_request", "TokenBucket.consume"], stubs=["fixed clock"],
